@@ -592,6 +592,69 @@ struct DynRequirements {
     vtables: IndexSet<(String, tast::Ty)>,
 }
 
+/// `switch x := x.(type)` gives `x` the variant's struct type inside each case.
+/// A match on the same variable nested in such a case would be `x.(type)` on a
+/// value that is no longer of interface type, which Go rejects; convert it back
+/// with `any(x)` there.
+fn widen_renarrowed_scrutinees(block: &mut goast::Block, narrowed: &mut Vec<String>) {
+    for stmt in block.stmts.iter_mut() {
+        match stmt {
+            goast::Stmt::If { then, else_, .. } => {
+                widen_renarrowed_scrutinees(then, narrowed);
+                if let Some(else_) = else_ {
+                    widen_renarrowed_scrutinees(else_, narrowed);
+                }
+            }
+            goast::Stmt::Loop { body } => widen_renarrowed_scrutinees(body, narrowed),
+            goast::Stmt::SwitchExpr { cases, default, .. } => {
+                for (_, body) in cases.iter_mut() {
+                    widen_renarrowed_scrutinees(body, narrowed);
+                }
+                if let Some(default) = default {
+                    widen_renarrowed_scrutinees(default, narrowed);
+                }
+            }
+            goast::Stmt::SwitchType {
+                bind,
+                expr,
+                cases,
+                default,
+            } => {
+                if let goast::Expr::Var { name, .. } = expr
+                    && narrowed.contains(name)
+                {
+                    let inner = std::mem::replace(expr, goast::Expr::Nil { ty: any_go_type() });
+                    *expr = goast::Expr::Call {
+                        func: Box::new(goast::Expr::Var {
+                            name: "any".to_string(),
+                            ty: goty::GoType::TFunc {
+                                params: vec![any_go_type()],
+                                ret_ty: Box::new(any_go_type()),
+                            },
+                        }),
+                        args: vec![inner],
+                        ty: any_go_type(),
+                    };
+                }
+                if let Some(bind) = bind {
+                    narrowed.push(bind.clone());
+                }
+                for (_, body) in cases.iter_mut() {
+                    widen_renarrowed_scrutinees(body, narrowed);
+                }
+                if bind.is_some() {
+                    narrowed.pop();
+                }
+                // in `default` the variable keeps the interface type
+                if let Some(default) = default {
+                    widen_renarrowed_scrutinees(default, narrowed);
+                }
+            }
+            _ => {}
+        }
+    }
+}
+
 fn any_go_type() -> goty::GoType {
     goty::GoType::TName {
         name: "any".to_string(),
@@ -2360,7 +2423,8 @@ pub fn go_file(
     toplevels.extend(gen_dyn_type_definitions(&goenv, &dyn_req));
     toplevels.extend(gen_dyn_helper_fns(&goenv, &file, &dyn_req));
     for item in file.toplevels {
-        let gof = compile_fn(&goenv, gensym, item);
+        let mut gof = compile_fn(&goenv, gensym, item);
+        widen_renarrowed_scrutinees(&mut gof.body, &mut Vec::new());
         toplevels.push(goast::Item::Fn(gof));
     }
     all.extend(toplevels);
